@@ -516,6 +516,56 @@ Definition advance (s : st) (f : uid) (v : fstatus) : st :=
   | None => s
   end.
 
+(* ------------------------------------------------------------------------------------ *)
+(* _clean_up_state (runs at the start of every run_to_completion): ended instances whose last
+   status change is older than 5 s (`aged`, the clock is external) and whose count is 0 are
+   discarded - with `keep` (read from the source) only if they are not the parent of an instance
+   that is running or activated; the discarded uids disappear from every child list and every
+   open scope; the action table is rebuilt from the action lists of the remaining instances. *)
+Definition memb (x : uid) (l : list uid) : bool := existsb (N.eqb x) l.
+
+Definition needed_parents (s : st) : list uid :=
+  flat_map (fun xi : uid * inst =>
+              if negb (done (i_status (snd xi))) || negb (i_activated (snd xi) =? 0)%Z
+              then match i_parent (snd xi) with Some p => [p] | None => [] end
+              else [])
+           (flows s).
+
+Definition removable (keep : bool) (aged : uid -> bool) (s : st) (xi : uid * inst) : bool :=
+  done (i_status (snd xi)) && aged (fst xi) && (i_activated (snd xi) =? 0)%Z
+  && (negb keep || negb (memb (fst xi) (needed_parents s))).
+
+Definition removed_uids (keep : bool) (aged : uid -> bool) (s : st) : list uid :=
+  map fst (filter (removable keep aged s) (flows s)).
+
+Definition prune (rem : list uid) (i : inst) : inst :=
+  set_scopes (map (fun sc : N * (list uid * list uid) =>
+                     (fst sc, (filter (fun x => negb (memb x rem)) (fst (snd sc)), snd (snd sc))))
+                  (i_scopes i))
+             (set_children (filter (fun x => negb (memb x rem)) (i_children i)) i).
+
+Fixpoint dedup (seen l : list uid) : list uid :=
+  match l with
+  | [] => []
+  | a :: l' => if memb a seen then dedup seen l' else a :: dedup (a :: seen) l'
+  end.
+
+Fixpoint lookup_all (m : list (uid * act)) (l : list uid) : res (list (uid * act)) :=
+  match l with
+  | [] => Ok []
+  | a :: l' => match get a m with
+               | None => Err EKeyAction
+               | Some c => bind (lookup_all m l') (fun r => Ok ((a, c) :: r))
+               end
+  end.
+
+Definition cleanup (keep : bool) (aged : uid -> bool) (s : st) : res st :=
+  let rem := removed_uids keep aged s in
+  let fl := map (fun xi : uid * inst => (fst xi, prune rem (snd xi)))
+                (filter (fun xi : uid * inst => negb (memb (fst xi) rem)) (flows s)) in
+  bind (lookup_all (acts s) (dedup [] (flat_map (fun xi : uid * inst => i_actions (snd xi)) fl)))
+       (fun ac => Ok (mkSt fl ac (out s))).
+
 (* _update_action_status_by_event + Action.process_event.  The harness classifies the event
    name with the same substring tests as process_event. *)
 Inductive akind := KStarted | KUpdated | KFinished | KStart | KStop | KOther.
